@@ -4,7 +4,10 @@ upstream fetch and every cache store is lexically inside the tile lock and
 edge-dominated by the negative re-check of is_cached evaluated inside the lock, while the
 cached branch loads (C08.a); the lock of a meta tile is a function of the meta tile
 only and the normalisation has the quotient form (C08.b); lock names are injective per
-cache and tile (C08.c); every bundle mutation happens under the bundle lock (C08.d)."""
+cache and tile (C08.c); every bundle mutation happens under the bundle lock (C08.d).
+Added in round 4: every walk over / write to the shared table of per-level databases holds the table
+lock (C08.h); tiles stored by a concurrent request between the batch load and the existence check
+are loaded afterwards (C08.i)."""
 import ast
 
 from ..engine import rule
